@@ -348,6 +348,20 @@ class Evaluator:
         for st_ in self.repo.module(self.module).tree.body:
             if isinstance(st_, ast.FunctionDef) and st_.name == name:
                 return st_
+        # `from .sibling import name`: a pure-looking helper of another hand-written module (no nested defs, no yield)
+        for st_ in self.repo.module(self.module).tree.body:
+            if isinstance(st_, ast.ImportFrom) and st_.level and any((a.asname or a.name) == name for a in st_.names):
+                real = next(a.name for a in st_.names if (a.asname or a.name) == name)
+                pkg = self.module.split(".")
+                base = pkg if self.repo.module(self.module).relpath.endswith("__init__.py") else pkg[:-1]
+                base = base[:len(base) - (st_.level - 1)]
+                target = ".".join(base + ([st_.module] if st_.module else []))
+                if target in self.repo.modules and target in ("cminx.rstwriter", "cminx.config", "cminx.documentation_types", "cminx",
+                                                              "cminx.parser", "cminx.exceptions", "cminx.aggregator"):
+                    for f in self.repo.module(target).tree.body:
+                        if isinstance(f, ast.FunctionDef) and f.name == real and not any(
+                                isinstance(x, (ast.Yield, ast.YieldFrom, ast.Global)) for x in ast.walk(f)):
+                            return f
         return None
 
     # ------------------------------------------------------------------
@@ -598,7 +612,11 @@ class Evaluator:
             v = self.eval(item.context_expr, st)
             st.effects.append(("with", v))
             if item.optional_vars is not None:
-                self.assign(item.optional_vars, ("withval", v), st)
+                o = st.obj(v)
+                if o is not None and o.get("sio"):
+                    self.assign(item.optional_vars, v, st)          # `with StringIO() as buf`: buf is the buffer itself
+                else:
+                    self.assign(item.optional_vars, ("withval", v), st)
         return self.exec_block(node.body, st)
 
     def st_Try(self, node, st):
@@ -1074,6 +1092,8 @@ class Evaluator:
             return x[1] is None
         if x[0] in ("ref", "list", "tuple", "fstr", "dict", "set"):
             return False
+        if x[0] == "attr" and x[1] == SELF and self.cls and self.repo.find_method(self.cls, x[2]) is not None:
+            return False          # a bound method of the class
         return st.facts.get(("isnone", x))
 
     def _isinstance(self, x: Term, clsname: str, st: State) -> Optional[bool]:
@@ -1267,6 +1287,10 @@ class Evaluator:
                 return fn, self.cls, None, "function"
         if isinstance(f, ast.Name):
             b = st.env.get(f.id)
+            if isinstance(b, tuple) and len(b) == 3 and b[0] == "attr" and b[1] == SELF and self.cls and b[2] not in self.opaque_methods:
+                r = self.repo.find_method(self.cls, b[2])
+                if r and not any(norm(d) in ("staticmethod", "classmethod", "property") for d in r[1].decorator_list):
+                    return r[1], self.cls, SELF, "boundmethod"
             if isinstance(b, tuple) and len(b) == 3 and b[0] == "localfunc":
                 fn = getattr(self, "_closures", {}).get(b[2])
                 if fn is not None and not any(isinstance(x, (ast.Yield, ast.YieldFrom, ast.Nonlocal)) for x in ast.walk(fn)) \
@@ -1329,7 +1353,27 @@ class Evaluator:
             v = self._class_constant(self.cls, name, st)
             if v is not None:
                 return v
+            v = self._property_value(name, st)
+            if v is not None:
+                return v
         return ("attr", base, name)
+
+    def _property_value(self, name: str, st: State) -> Optional[Term]:
+        """self.NAME where NAME is a read-only @property of the class under evaluation with a single outcome."""
+        r = self.repo.find_method(self.cls, name)
+        if r is None or not any(norm(d) == "property" for d in r[1].decorator_list) or self.depth >= self.max_depth:
+            return None
+        self.depth += 1
+        try:
+            outs = self.run_function(r[1], {func_params(r[1])[0]: SELF}, st.copy(), cls=self.cls)
+        except AnalysisError:
+            return None
+        finally:
+            self.depth -= 1
+        rets = [o for o in outs if o.kind == "return"]
+        if len(outs) == 1 and len(rets) == 1 and not rets[0].effects[len(st.effects):]:
+            return rets[0].value()
+        return None
 
     def _class_constant(self, cls: str, name: str, st: State) -> Optional[Term]:
         """self.NAME where NAME is a class-level constant (ClassVar or plain class-body assignment of a literal, never a
@@ -1557,8 +1601,13 @@ class Evaluator:
         # constructors of repo classes
         if self.repo.has_class(short) and (name == short or name.endswith("." + short)):
             return self._construct(short, list(args), dict(kws), st, node)
+        if name in ("StringIO", "io.StringIO") and not args and not kws:
+            # a text buffer is an ordered list of written pieces; getvalue() is their concatenation
+            return st.alloc({"kind": "list", "items": [], "sio": True})
         if name == "getattr" and len(args) >= 2 and is_const(args[1]):
             return self.get_attr(args[0], args[1][1], st)
+        if name == "vars" and len(args) == 1:
+            return ("attr", args[0], "__dict__")
         if name == "len" and len(args) == 1:
             return ("call", glob("len"), (args[0],), ())
         if name in ("list", "tuple") and len(args) == 1 and args[0][0] == "comp" and False:
@@ -1652,6 +1701,16 @@ class Evaluator:
         if o is not None and not concrete:
             return None
         if is_const(recv) or recv[0] in ("fstr", "global"):
+            return None
+        if concrete and o.get("sio"):
+            if name == "write" and len(args) == 1:
+                o["items"].append(args[0])
+                st.effects.append(("push", recv, args[0]))
+                return NONE
+            if name == "getvalue" and not args:
+                return ("call", ("attr", const(""), "join"), (recv,), ())
+            if name in ("close", "flush"):
+                return NONE
             return None
         if name in ("append", "add") and len(args) == 1 and (name == "append" or not concrete):
             if concrete:
